@@ -76,7 +76,8 @@ Inductive c06_case :=
 (* URL(t) = r and the two fixed-point experiments *)
 | KParse (t : text) (o : list ora) (r : res url_obs) (f1 f2 m1 m2 : res text)
 (* find_all_links(t, with_text=False / True, default_scheme=.., schemes=..): items (is-link, text) *)
-| KLinks (t : text) (plain withtext : res (list (bool * text)))
+| KLinks (t : text) (ds : option text) (schemes : list text) (spans : list (nat * nat)) (o : list ora)
+         (plain withtext : res (list (bool * text)))
 (* spec validation (not about boltons): urllib.parse.urlsplit(t) = (scheme, netloc, path, query, fragment),
    '' for an absent part, compared with the Spec's Appendix-B split *)
 | KSplit (t : text) (sch au path q f : text).
@@ -112,6 +113,19 @@ Definition m_reparse (O : oracles) (full : bool) (t : mres text) : mres url :=
 Definition m_render (O : oracles) (full : bool) (u : mres url) : mres text :=
   do x <- u; to_text T O full x.
 Definition m_obs (u : mres url) : mres url_obs := do x <- u; MOk (observe T x).
+
+(* find_all_links in the model, items rendered as the harness observes them: (true, url.to_text()) | (false, text) *)
+Fixpoint render_items (O : oracles) (l : list (bool * url + text)) : mres (list (bool * text)) :=
+  match l with
+  | [] => MOk []
+  | inl (_, u) :: r => do s <- to_text T O false u; do r' <- render_items O r; MOk ((true, s) :: r')
+  | inr s :: r => do r' <- render_items O r; MOk ((false, s) :: r')
+  end.
+Definition m_links (O : oracles) (with_text : bool) (ds : option text) (schemes : list text) (t : text)
+  (spans : list (nat * nat)) : mres (list (bool * text)) :=
+  do l <- find_all_links T O with_text ds schemes t spans; render_items O l.
+Definition items_eqb (a b : list (bool * text)) : bool :=
+  list_eqb (fun x y => Bool.eqb (fst x) (fst y) && text_eqb (snd x) (snd y)) a b.
 
 Definition position_of (c : comp) : position :=
   match c with CUser => PUser | CPath => PPath | CQuery => PQuery | CFrag => PFrag end.
@@ -192,10 +206,12 @@ Definition c06_verdict (c : c06_case) : verdict :=
      text_eqb (opt_text s') sch && text_eqb (opt_text a') au && text_eqb p' path &&
      text_eqb (opt_text q') q && text_eqb (opt_text f') f,
      false)
-  | KLinks t plain withtext =>
-    (* the regular expression is not modelled: the model only predicts that nothing is raised
-       (find_all_links wraps URL() in `except URLParseError`; URL() raises nothing else: C06_total) *)
-    (match plain, withtext with Ok _, Ok _ => true | _, _ => false end,
+  | KLinks t ds schemes spans o plain withtext =>
+    (* the regular expression is an oracle (its matches are [spans]); everything find_all_links does with the
+       matches is modelled: parse, default-scheme re-parse, scheme filter, error handler, text assembly *)
+    let O := mk_oracles o in
+    (agree_res items_eqb (m_links O false ds schemes t spans) plain &&
+     agree_res items_eqb (m_links O true ds schemes t spans) withtext,
      links_ok t plain withtext,
      false)
   end.
@@ -222,7 +238,12 @@ Definition c06_explain (c : c06_case) :=
     let mm1 := m_render O false u in
     ([mf1; m_render O true (m_reparse O true mf1); mm1; m_render O false (m_reparse O false mm1);
       MOk (if wf_ref true t then [1] else [0])], [m_obs u])
-  | KLinks t plain withtext => ([MOk (if match withtext with Ok w => fits w t | _ => false end then [1] else [0])], [])
+  | KLinks t ds schemes spans o plain withtext =>
+    let O := mk_oracles o in
+    let show (r : mres (list (bool * text))) : mres text :=
+      do l <- r; MOk (flat_map (fun '(b, s) => (if (b : bool) then [85; 58] else [83; 58]) ++ s ++ [124]) l) in
+    ([show (m_links O false ds schemes t spans); show (m_links O true ds schemes t spans);
+      MOk (if match withtext with Ok w => fits w t | _ => false end then [1] else [0])], [])
   | KSplit t sch au path q f =>
     let '(s', a', p', q', f') := rfc_split t in
     ([MOk (opt_text s'); MOk (opt_text a'); MOk p'; MOk (opt_text q'); MOk (opt_text f')], [])
